@@ -70,7 +70,7 @@ def units(tier):
 
 def space(tier):
     d = soup.DEPTH[tier]
-    return {'bound': soup.space_text(tier) + f"; forced copy_all through 7 channel variants (incl. combinations with sec_within / segment / colon modes) on the soup/damage/special texts; "
+    return {'bound': soup.space_text(tier) + f"; forced copy_all through 9 channel variants (incl. combinations with sec_within / segment / colon modes) on the soup/damage/special texts; "
                      f"fallback classes: token strings to depth {d} over sub-vocabularies of {len(V_NO_TWPRGE)}, "
                      f"{len(V_NO_SECWORD)}, {len(V_NO_SECNUM)}, {len(V_NO_COLON)} tokens", 'caps_hit': []}
 
@@ -105,7 +105,9 @@ def edge_only(full, desc):
     return False
 
 
-CHANNELS = ['kw', 'cfg', 'parse_nocommit', 'parse_commit', 'cfg+sec_within', 'cfg+segment,sec_colon_required', 'kw+sec_within,parse_qq']
+CHANNELS = ['kw', 'cfg', 'parse_nocommit', 'parse_commit', 'cfg+sec_within', 'cfg+segment,sec_colon_required', 'kw+sec_within,parse_qq',
+            # the parse argument on an object that was created with another layout dictated (by keyword / by config string)
+            'parse_over_kw_layout', 'parse_over_cfg_layout']
 
 
 def forced(acc, text):
@@ -133,6 +135,16 @@ def forced(acc, text):
                 tr = list(d.tracts)
                 pp = d.pp_desc
                 lay = d.current_layout
+            elif ch == 'parse_over_kw_layout':
+                d = _p.PLSSDesc(text, layout='TRS_desc')
+                tr = list(d.parse(layout='copy_all'))
+                pp = d.pp_desc
+                lay = d.current_layout
+            elif ch == 'parse_over_cfg_layout':
+                d = _p.PLSSDesc(text, config='desc_STR')
+                tr = list(d.parse(layout='copy_all', commit=False))
+                pp = d.pp_desc
+                lay = 'copy_all'
             elif ch == 'parse_nocommit':
                 d = _p.PLSSDesc(text)
                 before = [(t.trs, t.desc) for t in d.tracts]
@@ -160,7 +172,7 @@ def forced(acc, text):
         if lay != 'copy_all':
             acc.violation('forced_copy_all_layout', f"C11:forced_copy_all_layout:{ch}:{text}", case, got=lay)
             continue
-        if ch != 'parse_nocommit' and tr[0].trs_is_error() and not d.e_flags:
+        if ch not in ('parse_nocommit', 'parse_over_cfg_layout') and tr[0].trs_is_error() and not d.e_flags:
             acc.violation('forced_copy_all_no_error_flag', f"C11:forced_copy_all_no_error_flag:{ch}:{text}", case,
                           got=tr[0].trs)
             continue
